@@ -645,6 +645,33 @@ class Paths:
                             return None
                         out += [(conj + f2, e2, some(r2)) for f2, e2, r2 in res]
             return out
+        if self.loops == "once" and name in ("for_each", "try_for_each") and "iter::traits::iterator::Iterator" in path and len(args) == 2:
+            # an internal-iteration loop, walked once like a `for` loop: no item, or one item handed to the closure
+            is_try = name == "try_for_each"
+            if is_try and not (isinstance(rty, dict) and rty.get("adt") == RES):
+                return None
+            it = raw(0)
+            nx = ("call", "core::iter::traits::iterator::Iterator::next", (), (it,))
+            item = ("payload", nx)
+            done = ok(UNIT) if is_try else UNIT
+            res = self._apply_callable(raw(1), [item], depth)
+            if res is None:
+                return None
+            cases = [([("variant", nx, ("None",))], [], done)]
+            for f2, e2, r2 in res:
+                f2 = [("variant", nx, ("Some",))] + f2
+                if not is_try:
+                    cases.append((f2, e2, done))
+                    continue
+                vo = variant_of(r2)
+                if vo is None:
+                    cases.append((f2 + [("variant", r2, ("Ok",))], e2, done))
+                    cases.append((f2 + [("variant", r2, ("Err",))], e2, err(("errpayload", r2))))
+                elif vo[1] == "Err":
+                    cases.append((f2, e2, r2))
+                else:
+                    cases.append((f2, e2, done))
+            return cases
         if name in ("call", "call_mut", "call_once") and "ops::function" in path and len(args) == 2:
             tup = A(1)
             cargs = list(tup[2]) if tup[0] == "agg" and tup[1] == "tuple" else None
